@@ -175,6 +175,19 @@ def step (st : St) (op : String) (got : String) : StepResult St :=
         | none => [⟨"no-panic", "q", s!"lookup crashed or malformed: {got.take 200}"⟩]
       { st := st, expected := some s!"T {treeItem st.tree n} H {hashItem st.hash n}", spec := sp, cov := [lpmTag st.hash n] }
     | none => { st := st, expected := some "bad-op" }
+  | ["wb"] =>
+    -- white-box dump of the node sets: NOT an observable of C05 (never compared, never a verdict);
+    -- only recorded as coverage so that the evidence shows whether the structures are minimal
+    let mt := ";".intercalate (sortBy (fun a b => a < b) (st.tree.nodes.map fun q =>
+      q.1.toText ++ ":" ++ (if q.2.name.isSome then "n" else "-") ++ (if q.2.hops.isEmpty then "-" else "h") ++ (if q.2.strat.isSome then "s" else "-")))
+    let mv := ";".intercalate (sortBy (fun a b => a < b) (st.hash.virt.map fun q =>
+      s!"{q.1.toText}:{q.2}:{((afind st.hash.vnames q.1).getD []).length}"))
+    let tags := match splitTH got with
+      | some (x, y) =>
+        [if x == mt then "wb-tree-nodes-as-model" else "wb-tree-nodes-differ",
+         if (y.splitOn " virt=").getLastD "" == mv then "wb-hash-virt-as-model" else "wb-hash-virt-differ"]
+      | none => []
+    { st := st, expected := none, cov := tags }
   | ["lf"] =>
     let want := renderFib st.spec.listFib
     let sp := match splitTH got with
